@@ -494,35 +494,46 @@ def run(chk):
                 break
     chk.instances('C19.R6', n_l)
 
-    # start / end literals
-    _, trun = repo.method('PlayerThread', 'run', 'C19.R6')
-    _, crun = repo.method('Client', 'run', 'C19.R6')
-    w_crun, q_crun = loc(repo, 'Client', 'run', 'C19.R6')
-    lits = []
-    for n in method_calls(trun, 'send_message'):
-        v = eval_in(f, n.args[0], {'self': fresh(f, 'PlayerThread', player=P[0])}, sm, pth, 'C19.R6', 'PlayerThread.run')
-        if v[0] == 'ok' and isinstance(v[1], str):
-            lits.append((n, v[1]))
-    chk.floor('C19.R6', 'start-of-board / end-of-session sends in PlayerThread.run', len(lits), 2)
-    tests = [n for n in ast.walk(crun) if isinstance(n, ast.If)]
-    start_if = [n for n in tests if n.body and isinstance(n.body[-1], ast.Raise)]
-    end_if = [n for n in tests if n.body and isinstance(n.body[-1], ast.Break)]
-    if len(start_if) != 1 or len(end_if) != 1:
-        raise AnalysisError('C19.R6', q_crun, 'cannot identify the start-of-board test (if ...: raise) and the end-of-session test (if ...: break)')
-    msgnames = {x.id for t_ in (start_if[0], end_if[0]) for x in ast.walk(t_.test) if isinstance(x, ast.Name)}
-    if len(msgnames) != 1:
-        raise AnalysisError('C19.R6', q_crun, f'start/end tests read {msgnames}')
-    mv = msgnames.pop()
-    start_lit, end_lit = lits[0][1], lits[-1][1]
-    for what, lit, node, want_start, want_end in (('start of board', start_lit, lits[0][0], False, False), ('end of session', end_lit, lits[-1][0], None, True)):
-        r1 = eval_in(f, start_if[0].test, {mv: lit}, cm, cli, 'C19.R6', q_crun)
-        r2 = eval_in(f, end_if[0].test, {mv: lit}, cm, cli, 'C19.R6', q_crun)
-        chk.evals(2)
-        good = (want_start is None or (r1[0] == 'ok' and bool(r1[1]) == want_start)) and r2[0] == 'ok' and bool(r2[1]) == want_end
-        chk.require(good, 'C19.R6', repo.where(sm, node), 'PlayerThread.run', f'{what} literal {lit!r}',
-                    f'the {what} line {lit!r} is recognised by Client.run',
-                    f'the server\'s {what} line {lit!r} makes Client.run\'s tests `{ast.unparse(start_if[0].test)}` -> {r1}, `{ast.unparse(end_if[0].test)}` -> {r2}')
-    chk.instances('C19.R6', 2)
+    def start_end_literals():
+        # start / end literals
+        _, trun = repo.method('PlayerThread', 'run', 'C19.R6')
+        _, crun = repo.method('Client', 'run', 'C19.R6')
+        w_crun, q_crun = loc(repo, 'Client', 'run', 'C19.R6')
+        lits = []
+        for n in method_calls(trun, 'send_message'):
+            v = eval_in(f, n.args[0], {'self': fresh(f, 'PlayerThread', player=P[0])}, sm, pth, 'C19.R6', 'PlayerThread.run')
+            if v[0] == 'ok' and isinstance(v[1], str):
+                lits.append((n, v[1]))
+        chk.floor('C19.R6', 'start-of-board / end-of-session sends in PlayerThread.run', len(lits), 2)
+        tests = [n for n in ast.walk(crun) if isinstance(n, ast.If)]
+        start_if = [n for n in tests if n.body and isinstance(n.body[-1], ast.Raise)]
+        end_if = [n for n in tests if n.body and isinstance(n.body[-1], ast.Break)]
+        if len(start_if) != 1 or len(end_if) != 1:
+            raise AnalysisError('C19.R6', q_crun, 'cannot identify the start-of-board test (if ...: raise) and the end-of-session test (if ...: break)')
+        msgnames = {x.id for t_ in (start_if[0], end_if[0]) for x in ast.walk(t_.test) if isinstance(x, ast.Name)}
+        if len(msgnames) != 1:
+            raise AnalysisError('C19.R6', q_crun, f'start/end tests read {msgnames}')
+        mv = msgnames.pop()
+        start_lit, end_lit = lits[0][1], lits[-1][1]
+        for what, lit, node, want_start, want_end in (('start of board', start_lit, lits[0][0], False, False), ('end of session', end_lit, lits[-1][0], None, True)):
+            r1 = eval_in(f, start_if[0].test, {mv: lit}, cm, cli, 'C19.R6', q_crun)
+            r2 = eval_in(f, end_if[0].test, {mv: lit}, cm, cli, 'C19.R6', q_crun)
+            chk.evals(2)
+            good = (want_start is None or (r1[0] == 'ok' and bool(r1[1]) == want_start)) and r2[0] == 'ok' and bool(r2[1]) == want_end
+            chk.require(good, 'C19.R6', repo.where(sm, node), 'PlayerThread.run', f'{what} literal {lit!r}',
+                        f'the {what} line {lit!r} is recognised by Client.run',
+                        f'the server\'s {what} line {lit!r} makes Client.run\'s tests `{ast.unparse(start_if[0].test)}` -> {r1}, `{ast.unparse(end_if[0].test)}` -> {r2}')
+        chk.instances('C19.R6', 2)
+
+
+    try:
+        start_end_literals()
+    except AnalysisError as e_lit:
+        if chk.findings:
+            raise
+        # the shape of Client.run's tests is not recognised: whether the bundled client recognises the server's start-of-board and
+        # end-of-session lines is decided by the abstract sessions of R9 below (a client that does not, raises or never finishes there)
+        chk.note(f'C19.R6 start/end literals by structure not evaluated ({e_lit.why[:160]}); decided by the abstract sessions C19.R9')
 
     chk.extra.setdefault('domains', {})['hands'] = len(fam)
     framing(chk)
